@@ -48,7 +48,21 @@ NA = {
  'C10': 'the claim is a residual bound ||AX-I|| <= c n eps cond(A): needs real division and norm inequalities over IEEE arithmetic; a single duplicated 32-bit multiplier already defeats every installed back end, the ring abstraction has no division, uninterpreted functions have no field axioms. Memory safety/frame of every inversion strategy is checked under C07, lazy inv == eager inverse under C09.',
  'C12': 'residual bound ||Ax-b|| <= c n eps cond(A) ||b||: same reason as C10; safety of solve is under C07, lazy/eager wiring under C09.',
 }
+APPEND = {
+ 'C06': ' Tuning macros are targeted at the kernels they configure: matmul/tmatmul and transpose block sizes on shapes with a full block of the configured size plus remainders, kernels with a separate FMA branch under the FMA and non-FMA flag sets.',
+ 'C07': ' Offsets include one that is 16-byte but not 32/64-byte aligned under the AVX flag sets.',
+ 'C08': ' Complex vectors (split real/imaginary registers): + - conj on every lane, multiply / divide / rcp on the first and last lane as alternative groups over the admissible FMA contractions (UF). Supporting static fact on every unfiltered run: no integer lane access through incompatible pointer casts in the integer SIMD headers (regex scan; a hit is reported as a violation with no failing input).',
+ 'C09': ' Lazy ctrans in = += -= and in X +- ctrans(A) on complex tensors; norm() of an unevaluated expression through every unroll stage of the fused kernel.',
+ 'C13': ' Also: qr with the input tensor passed as R or as Q output equals the call with separate outputs bit for bit (n = 2, float n = 3); a pivot argument with the default computation type gives the pivoted factorisation.',
+ 'C14': ' Transpose under FASTOR_TRANS_{OUTER,INNER}_BLOCK_SIZE = 1..4 on shapes with full blocks of the configured size (AVX flag sets); ctrans in subtraction forms.',
+ 'C16': ' norm() of an unevaluated element-wise expression at sizes entering every unroll stage (8V, 4V, 2V, V, scalar tail).',
+ 'C17': ' Multi-block shapes (13x13x9, 13x6x7, 9x9x10, ... per ISA/type) reach the second and later kernel blocks and the masked remainder; the four (Tensor|expression) overloads at 6x6x6 / 5x7x4 for every tag pair.',
+ 'C20': ' Every assignment operator through a map with another map, the map itself, a second map over the same storage and an expression reading the destination on the right (int: = += -=; float: all five, UF).',
+}
+THOROUGH = ' Thorough tier: every quick-tier case plus a seeded family-stratified sample of the larger thorough box, capped at VERIF_THOROUGH_CAP (default 3000) cases.'
 def main():
+    for k, v in APPEND.items(): CHECKS[k]['text'] += v
+    for k in CHECKS: CHECKS[k]['text'] += THOROUGH
     props = [json.loads(l)['id'] for l in open(os.path.join(VERIF, 'properties.jsonl'))]
     try:
         from mkmanifest_na import NA as NA2
